@@ -181,6 +181,8 @@ def run_coupling(tid, kind, grid, atoms, unit, method, fv, sigma, a, maxlvl):
     ev = []
     try:
         model = atomic.AtomLevyModel(atoms, sigma=sigma, a=a, finite_variation=fv, unit=unit)
+        # the process does not start at zero: the coarse component's drift is a slope, not a value at time 1
+        model.x0_value = lambda: 5 * U
         cp = CouplingMarkovChain(model=model, method=method, grid=grid)
         uni = OneUniform()
         cp.uniform = uni
